@@ -156,10 +156,13 @@ CHECKS["C19"] = dict(
             dict(spec="MCShed.tla", cfg="MCShedField.cfg", cfg_thorough="MCShedField_thorough.cfg", workers=8, timeout=1200)],
     gen=dict(
         quick=[dict(mode="edges", spec="ShedGen.tla", cfg="ShedGenEdgesQuick.cfg", depth=6, max=1500, name="index-edges"),
+               # every ordered pair of staged writes on two keys (put-then-delete, delete-then-put, put-put of one key) from every store state
+               dict(mode="edges", spec="ShedGen.tla", cfg="ShedGenBatch2.cfg", depth=7, max=1200, name="batch2-edges"),
                dict(mode="sim", spec="ShedGen.tla", cfg="ShedGenSim.cfg", depth=12, num=30, max=700, name="walks")],
         thorough=[dict(mode="edges", spec="ShedGen.tla", cfg="ShedGenEdges.cfg", depth=8, max=20000, timeout=1500, name="index-edges"),
                   dict(mode="edges", spec="ShedGen.tla", cfg="ShedGenEdgesQuick.cfg", depth=6, max=8000, timeout=1500, name="batch-edges"),
                   dict(mode="edges", spec="ShedGen.tla", cfg="ShedGenFieldEdges.cfg", depth=6, max=6000, timeout=1500, name="field-edges"),
+                  dict(mode="edges", spec="ShedGen.tla", cfg="ShedGenBatch2.cfg", depth=9, max=6000, timeout=1500, name="batch2-edges"),
                   dict(mode="sim", spec="ShedGen.tla", cfg="ShedGenSim.cfg", depth=25, num=120, max=3000, name="walks")]),
     judge=dict(spec="ShedTrace.tla", cfg="ShedTrace.cfg"),
     corrupt=corrupt_field("get", "found", lambda e: not e["found"]),
